@@ -30,7 +30,61 @@ EXPLANATION = (
 ASSUMPTIONS = ["user-defined channels follow the built-in naming convention", "'integrate simulates the displayed model' as a whole is not decided"]
 
 
+def _refresh(repo, col, R="R-C19-refresh"):
+    """A view keeps its own cut of the base's registries (`view.recordings`, `view.externals`, ...).  A deletion made THROUGH a view edits
+    the base and must then rebuild the view (`self._update_view()`), or the view goes on displaying -- and handing to a later
+    `delete_*` -- rows that no longer exist.  Structural: every statement that edits a registry of `self.base` in the delete_*
+    methods is followed, in its own block or an enclosing one, by an unconditional `self._update_view()`."""
+    n = 0
+    for meth, regs in (("delete_recordings", ("recordings",)), ("delete_clamps", ("externals", "external_inds")),
+                       ("delete_trainables", ("trainable_params", "indices_set_by_trainables"))):
+        fi = repo.method("Module", meth)
+        alias = {}
+        for a_ in ast.walk(fi.node):
+            if isinstance(a_, ast.Assign) and isinstance(a_.targets[0], ast.Name) and unparse(a_.value) in tuple("self.base." + r_ for r_ in regs):
+                alias[a_.targets[0].id] = unparse(a_.value)
+
+        def edits(st):
+            if isinstance(st, (ast.Assign, ast.AugAssign)):
+                for t_ in (st.targets if isinstance(st, ast.Assign) else [st.target]):
+                    root = t_
+                    while isinstance(root, ast.Subscript):
+                        root = root.value
+                    txt = unparse(root)
+                    if txt in tuple("self.base." + r_ for r_ in regs) or (isinstance(t_, ast.Subscript) and txt in alias):
+                        return True
+            if isinstance(st, ast.Expr) and isinstance(st.value, ast.Call) and isinstance(st.value.func, ast.Attribute) and \
+                    st.value.func.attr in ("pop", "clear", "update", "drop", "remove") and \
+                    (unparse(st.value.func.value) in alias or unparse(st.value.func.value) in tuple("self.base." + r_ for r_ in regs)):
+                return True
+            return False
+        is_refresh = lambda st: isinstance(st, ast.Expr) and isinstance(st.value, ast.Call) and unparse(st.value.func) == "self._update_view"
+
+        def walk(block, followed, not_a_view=False):
+            """followed: an unconditional refresh comes later in an enclosing block; not_a_view: the branch where `self` is the module
+            itself (`_update_view` does nothing there)"""
+            nonlocal n
+            for i, st in enumerate(block):
+                later = followed or any(is_refresh(x) for x in block[i + 1:])
+                if edits(st) and not not_a_view:
+                    n += 1
+                    col.check(later, R, fi, f"Module.{meth}: `{unparse(st)[:50]}` is followed by self._update_view()", "the calling view is rebuilt",
+                              f"`{unparse(st)[:70]}` edits the base's registry and the view that made the call is not rebuilt afterwards: it goes on "
+                              f"displaying the deleted rows, and a second delete through it matches rows that no longer exist", node=st)
+                view_test = isinstance(st, ast.If) and unparse(st.test).replace(" ", "") in ("isinstance(self,View)", "notisinstance(self,View)")
+                for fld in ("body", "orelse", "finalbody"):
+                    sub = getattr(st, fld, None)
+                    if isinstance(sub, list) and sub and isinstance(sub[0], ast.stmt):
+                        other = view_test and ((fld == "orelse") != unparse(st.test).startswith("not"))
+                        walk(sub, later, not_a_view or other)
+        walk(fi.node.body, False)
+    if n < 4:
+        raise AnalysisError(f"only {n} registry edits found in the delete_* methods")
+
+
 def check(repo, col, tier):
+    col.rule("R-C19-refresh", "a deletion made through a view rebuilds that view", 4)
+    _refresh(repo, col)
     col.rule("R-C19-undo", "delete_channel releases what insert acquired; shared resources only when unused", 6)
     col.rule("R-C19-relabel", "row-label registries guarded or rewritten on renumbering", 4)
     col.rule("R-C19-classify", "trainable-key classifier is total", 2)
